@@ -47,6 +47,7 @@ def structural(tree, src):
                 for x in v:
                     if isinstance(x, (tuple, list)):
                         problems.append(f"{cls.__name__}.{f} holds a {type(x).__name__}")
+        problems.extend(asdl.type_problems(node))
         for f in asdl.list_fields(cls.__name__):
             if hasattr(node, f) and not isinstance(getattr(node, f), list):
                 problems.append(f"{cls.__name__}.{f} is {type(getattr(node, f)).__name__}, not a list")
@@ -119,6 +120,8 @@ def build_inputs(tier):
         cases.append(("py", s, "exec"))
     for s in corpus.PY_EXPRS:
         cases.append(("py", s, "eval"))
+    for s in corpus.arg_order_variants() + corpus.string_prefix_variants():
+        cases.append(("source-form", s, "exec"))  # orders ast.unparse never writes (a starred argument after a keyword, ...)
     for s in xonshgen.XONSH_STMTS:
         cases.append(("xonsh-stmt", s, "exec"))
     for x, _t, _k in corpus.xonsh_pairs():
@@ -196,7 +199,7 @@ def run(rep, tier, pool, variants=("shipped",)):
             if o.get("ok"):
                 rep.count(f"{kind}:{o['ok']}")
                 continue
-            if o.get("k") in ("hang", "crash", "worker-exc"):
+            if o.get("k") in ("hang", "crash", "worker-exc", "not-run"):
                 rep.count("infra:" + o["k"])
                 continue
             fid = classify(src, o)
